@@ -107,8 +107,11 @@ def apply_mutations(desc, circuits, observables):
             observables = [str(p) for p in observables] if isinstance(observables, PauliList) else list(observables.items())
         elif k == "circ_as_list":
             circuits = list(circuits.values()) if isinstance(circuits, dict) else [circuits]
-        elif k == "relabel":                 # ["relabel", part_index, gate_ordinal, new_label|null]
-            key = list(circuits.keys())[m[1]]
+        elif k == "relabel":                 # ["relabel", _, gate_ordinal, new_label|null]: in the first partition that has placeholders
+            keys = [kk for kk, c in circuits.items() if any(isinstance(i.operation, SingleQubitQPDGate) for i in c.data)]
+            if not keys:
+                raise ValueError("no placeholder to relabel")
+            key = keys[0]
             qc = circuits[key].copy()
             cnt = 0
             for i, inst in enumerate(qc.data):
@@ -618,10 +621,10 @@ def idle_under_auto(desc):
 
 def emit(w, desc, stream):
     coq_case, jc, info = run_desc(desc)
-    if stream == "malformed":
-        group, chk = "malformed", "chk_generate"
-    elif f2_routed(jc):
+    if f2_routed(jc):
         group, chk = "generate_f2", "chk_generate_f2"
+    elif stream == "malformed":
+        group, chk = "malformed", "chk_generate"
     else:
         group, chk = "generate", "chk_generate"
     jc["group"] = group
@@ -846,21 +849,31 @@ def _expected_circuit(mc, env, joint, separated, general, pidx, gh, gsx):
     return out, nobs, max(1, k)
 
 
-DOCUMENTED_REFUSALS = {"badN", "obs_as_paulilist", "obs_as_dict", "obs_as_list", "relabel_none", "relabel_nosuffix", "split_2q"}
-
-
 def judge(case):
     desc = case["desc"]
     impl = case["impl"]
     muts = [m[0] for m in desc.get("mut") or []]
     Nbad = not (desc["N"] == "inf" or (isinstance(desc["N"], list) and Fraction(desc["N"][0], desc["N"][1]) >= 1))
-    # ---- documented refusals ----
-    doc = Nbad and case["circuits"][0] != "other" or any(
-        m in ("obs_as_paulilist", "obs_as_dict", "split_2q") or (m == "obs_as_list" and case["circuits"][0] != "other") for m in muts)
-    if any(m[0] == "relabel" for m in desc.get("mut") or []):
-        doc = True
+    ckind, okind = case["circuits"][0], case["observables"][0]
+    # ---- documented refusals (docstring "Raises"), decided on the canonical request itself ----
+    doc = None
+    if ckind == "single" and okind != "paulis":
+        doc = "QuantumCircuit with observables that are not a PauliList"
+    elif ckind == "dict" and okind != "dict":
+        doc = "dict of circuits with observables that are not a dict"
+    elif Nbad:
+        doc = "num_samples is not >= 1"
+    elif ckind == "dict" and okind == "dict" and all(e[2][0] == "ok" for e in case["observables"][1]):
+        for e in case["circuits"][1]:
+            for ins in e[2]["data"]:
+                if ins["op"][0] == "qpd1" and (ins["op"][4] is None or ins["op"][4][1] is None):
+                    doc = "SingleQubitQPDGate without a numeric label suffix"
+    elif ckind == "single" and okind == "paulis" and case["observables"][1][0] == "ok":
+        if any(ins["op"][0] == "qpd1" for ins in case["circuits"][1]["data"]):
+            doc = "SingleQubitQPDGate in an unseparated circuit"
     if doc:
-        return dict(violates=impl[0] != "refused", detail=f"documented ValueError class; implementation: {impl[0]} {impl[1] if impl[0] != 'ok' else ''}")
+        return dict(violates=impl[0] != "refused", detail=f"documented ValueError class ({doc}); implementation: {impl[0]} "
+                                                          f"{impl[1] if impl[0] != 'ok' else ''}")
     if impl[0] != "ok":
         wellformed = not muts or set(muts) <= {"clbits", "reverse_obs_dict", "drop_obs_label", "append_reset"}
         return dict(violates=wellformed, detail=f"implementation raised on a {'well-formed' if wellformed else 'malformed (undocumented class)'} "
